@@ -168,6 +168,7 @@ def main():
     results = []
     violation = None
     fault = None
+    det_fault = None
 
     variants = list(PLAN[prop])
     if prop == "C20":
@@ -202,7 +203,10 @@ def main():
         det["sample_runs"] = nd
         det["identical"] = all(d == dumps[0] for d in dumps) and len(dumps[0].splitlines()) == nd
         if not det["identical"]:
-            fault = "event hashes differ between worker counts: the simulator is not deterministic"
+            # decided after the search: if the library itself is nondeterministic (output depends on addresses or stack
+            # residue) the search reports that as a violation of the armed property; only if the search is clean is the
+            # mismatch a fault of the harness
+            det_fault = "event hashes differ between worker counts and the search found no violation: the simulator (or the library, in a way this property's oracle does not see) is not deterministic"
 
     # ---- the seeded search, variant by variant
     if not violation and not fault:
@@ -231,6 +235,9 @@ def main():
             if r.returncode != 0:
                 fault = "variant %s: simulator exited with %d" % (variant, r.returncode)
                 break
+
+    if det_fault and not violation and not fault:
+        fault = det_fault
 
     # ---- C19 side check on the shipped objects (not the deciding step; the statement's first sentence)
     side = None
